@@ -46,7 +46,7 @@ PROPS.update({
         "text": "Kernel-checked: handler starts are exactly the envelopes of the taken prefix of the acceptance log, in order; the mailbox is the remaining suffix; an item is accepted at most once; the log only grows at its end - for every schedule, capacity and operation mix, the stop marker being an ordinary item of the same queue. stop() in band: before_stop_handled (everything accepted before the dequeued marker has been handled), after_stop_never_handled (nothing accepted behind a marker is ever handled, in any reachable state), nothing_after_stop_begins (no handler starts once the loop has left its select; via the invariant that the dequeue pointer never passes a marker). Correspondence + monitors C02.fifo / idxInOrder / stopPrefix / stopCallOrder / nothingAfterStopReturned on real traces (acceptance order observed by the probe). Real-time side: stress scenario `cancel` - a tell / ask / stop() cancelled by its caller while parked on a full capacity-1 mailbox was never accepted: it is never delivered, holds no slot, and a later stop() through the same handle, a clone, an upgraded weak reference or a boxed ActorControl stops the actor (everything accepted before it handled, nothing accepted after it returned handled).",
         "note": PROOF_NOTE,
         "technique": "Lean 4 invariant proof (mailbox = suffix of acceptance log) + correspondence + Lean monitors on real traces",
-        "extra": ["stress"],
+        "extra": ["stress", "netcorr"],
         "monitors": ["C02"],
         "corr": corr(["abandon", "eager", "shutdown", "burst", "mixed", "timeouts"], erase="both"),
         "extract_items": [],
@@ -58,7 +58,7 @@ PROPS.update({
         "note": PROOF_NOTE + " Wall-clock behaviour of the blocking variants is outside the model (see C17).",
         "technique": "Lean 4 invariant proof over label sequences + translated is_retryable + correspondence with virtual-clock return instants",
         "monitors": ["C10"],
-        "extra": ["tables", "stress"],
+        "extra": ["tables", "stress", "netcorr"],
         "corr": corr(["abandon", "timeouts", "burst", "mixed"], erase="both"),
         "extract_items": ["ErrorKind", "forwarders", "timeout_wrappers"],
         "assumptions": COMMON_ASSUME + ["tokio::time::timeout polls the inner future first and fires no earlier than its deadline"],
